@@ -753,9 +753,17 @@ class Sym(Interp):
                 if k0.isbool:
                     raise EvalError("boolean mask inside a tuple index")
                 rows = [base.index((self.as_int(i),) + tuple(key[1:])) for i in k0.ravel().data]
-                return self.stack(rows) if rows else Arr([], (0,))
+                out = self.stack(rows) if rows else Arr([], (0,))
+                if k0.ndim > 1 and isinstance(out, Arr):
+                    # integer-array (gather) indexing: result shape = index shape + shape of what the remaining key selects
+                    out = Arr(list(out.data), tuple(k0.shape) + tuple(out.shape[1:]))
+                return out
             if isinstance(key, Arr) and not key.isbool and key.ndim == 1 and key.shape[0] == 0:
                 return Arr([], (0,) + tuple(base.shape[1:]))
+            if isinstance(key, Arr) and not key.isbool and key.ndim > 1:
+                flat = self.num(self.getitem(base, key.ravel()))
+                tail = tuple(flat.shape[1:]) if isinstance(flat, Arr) else ()
+                return Arr(list(flat.data), tuple(key.shape) + tail)
         if isinstance(base, (tuple, list)) and isinstance(key, (Dual, Fraction)):
             key = self.as_int(key)
         if isinstance(base, dict) and isinstance(key, (Dual, Fraction)):
